@@ -5,9 +5,11 @@ import (
 	"crypto/ecdsa"
 	"crypto/elliptic"
 	"crypto/rand"
+	"crypto/sha1"
 	"crypto/tls"
 	"crypto/x509"
 	"crypto/x509/pkix"
+	"encoding/base64"
 	"encoding/pem"
 	"errors"
 	"io"
@@ -15,6 +17,7 @@ import (
 	"net"
 	"os"
 	"path/filepath"
+	"strings"
 	"sync"
 	"time"
 )
@@ -42,6 +45,112 @@ type wire struct {
 	closed   bool
 	tlsStart int // offset in out of the first TLS record, -1 if none
 	srvOff   int // read offset of the TLS server in out
+	// ws != nil: the client end is a *websocket.Conn (golang.org/x/net/websocket).  The wire
+	// then is the peer's WebSocket endpoint: it answers the HTTP upgrade request, takes the
+	// client's (masked) frames apart — out holds their payload, so everything above is the
+	// same as on a raw carrier — and frames what the peer sends.
+	ws *wsEnd
+}
+
+type wsEnd struct {
+	upgraded bool
+	req      []byte // the HTTP request so far
+	resp     []byte // the upgrade response the client has not read yet
+	in       []byte // bytes of an incomplete frame
+	raw      []byte // everything the client wrote, as written
+}
+
+const wsGUID = "258EAFA5-E914-47DA-95CA-C5AB0DC85B11"
+
+// feed takes bytes the client wrote and returns the payload of the data frames in them.
+func (e *wsEnd) feed(p []byte) (payload []byte) {
+	e.raw = append(e.raw, p...)
+	if !e.upgraded {
+		e.req = append(e.req, p...)
+		i := bytes.Index(e.req, []byte("\r\n\r\n"))
+		if i < 0 {
+			return nil
+		}
+		key := ""
+		for _, l := range strings.Split(string(e.req[:i]), "\r\n") {
+			if k, v, ok := strings.Cut(l, ":"); ok && strings.EqualFold(strings.TrimSpace(k), "Sec-WebSocket-Key") {
+				key = strings.TrimSpace(v)
+			}
+		}
+		h := sha1.Sum([]byte(key + wsGUID))
+		e.resp = []byte("HTTP/1.1 101 Switching Protocols\r\nUpgrade: websocket\r\nConnection: Upgrade\r\nSec-WebSocket-Accept: " +
+			base64.StdEncoding.EncodeToString(h[:]) + "\r\nSec-WebSocket-Protocol: xmpp\r\n\r\n")
+		e.upgraded = true
+		p = e.req[i+4:]
+		e.req = nil
+	}
+	e.in = append(e.in, p...)
+	for {
+		b := e.in
+		if len(b) < 2 {
+			return payload
+		}
+		op, masked, n, off := b[0]&0x0f, b[1]&0x80 != 0, int(b[1]&0x7f), 2
+		switch n {
+		case 126:
+			if len(b) < 4 {
+				return payload
+			}
+			n, off = int(b[2])<<8|int(b[3]), 4
+		case 127:
+			if len(b) < 10 {
+				return payload
+			}
+			n, off = int(b[6])<<24|int(b[7])<<16|int(b[8])<<8|int(b[9]), 10
+		}
+		var mask []byte
+		if masked {
+			if len(b) < off+4 {
+				return payload
+			}
+			mask, off = b[off:off+4], off+4
+		}
+		if len(b) < off+n {
+			return payload
+		}
+		if op <= 2 { // continuation, text, binary (close/ping/pong carry no stream data)
+			for k := 0; k < n; k++ {
+				c := b[off+k]
+				if masked {
+					c ^= mask[k%4]
+				}
+				payload = append(payload, c)
+			}
+		}
+		e.in = append([]byte(nil), b[off+n:]...)
+	}
+}
+
+// wsFrame: one unmasked text frame (what a server sends)
+func wsFrame(p []byte) []byte {
+	b := []byte{0x81}
+	switch {
+	case len(p) < 126:
+		b = append(b, byte(len(p)))
+	case len(p) < 1<<16:
+		b = append(b, 126, byte(len(p)>>8), byte(len(p)))
+	default:
+		b = append(b, 127, 0, 0, 0, 0, byte(len(p)>>24), byte(len(p)>>16), byte(len(p)>>8), byte(len(p)))
+	}
+	return append(b, p...)
+}
+
+// newWSWire: a wire whose client end is a *websocket.Conn
+func newWSWire(clear [][]byte) *wire {
+	var framed [][]byte
+	for _, s := range clear {
+		if len(s) > 0 {
+			framed = append(framed, wsFrame(s))
+		}
+	}
+	w := newWire(framed)
+	w.ws = &wsEnd{}
+	return w
 }
 
 func newWire(clear [][]byte) *wire {
@@ -89,6 +198,16 @@ func (c clientConn) Read(p []byte) (int, error) {
 		if len(p) == 0 {
 			return 0, nil
 		}
+		if w.ws != nil {
+			if !w.ws.upgraded {
+				return 0, io.EOF // (the client writes its request before it reads)
+			}
+			if len(w.ws.resp) > 0 {
+				n := copy(p, w.ws.resp)
+				w.ws.resp = w.ws.resp[n:]
+				return n, nil
+			}
+		}
 		if len(w.clear) > 0 {
 			n := copy(p, w.clear[0])
 			if n == len(w.clear[0]) {
@@ -124,6 +243,10 @@ func (c clientConn) Write(p []byte) (int, error) {
 	if w.closed {
 		return 0, errClosed
 	}
+	written := len(p)
+	if w.ws != nil {
+		p = w.ws.feed(p)
+	}
 	if w.tlsStart < 0 {
 		if i := bytes.IndexByte(p, 0x16); i >= 0 {
 			w.tlsStart = len(w.out) + i
@@ -132,7 +255,7 @@ func (c clientConn) Write(p []byte) (int, error) {
 	}
 	w.out = append(w.out, p...)
 	w.cond.Broadcast()
-	return len(p), nil
+	return written, nil
 }
 
 func (c clientConn) Close() error                     { return nil }
@@ -170,7 +293,11 @@ func (c srvConn) Write(p []byte) (int, error) {
 	if w.closed {
 		return 0, errClosed
 	}
-	w.tlsq = append(w.tlsq, append([]byte(nil), p...))
+	if w.ws != nil {
+		w.tlsq = append(w.tlsq, wsFrame(p))
+	} else {
+		w.tlsq = append(w.tlsq, append([]byte(nil), p...))
+	}
 	w.cond.Broadcast()
 	return len(p), nil
 }
@@ -185,6 +312,9 @@ func (c srvConn) SetWriteDeadline(time.Time) error { return nil }
 // pushRaw puts attacker bytes (not TLS records) into the TLS-phase queue.
 func (w *wire) pushRaw(b []byte) {
 	w.mu.Lock()
+	if w.ws != nil {
+		b = wsFrame(b)
+	}
 	w.tlsq = append(w.tlsq, append([]byte(nil), b...))
 	w.cond.Broadcast()
 	w.mu.Unlock()
@@ -212,6 +342,7 @@ func (w *wire) setSrvDone() {
 // TLS layer by the real server, or raw junk injected below it.
 type pitem struct {
 	junk bool
+	cert int // != 0, first item: a real handshake with a certificate that must be refused (see pu)
 	b    []byte
 }
 
@@ -219,6 +350,7 @@ type pitem struct {
 type tlsPeer struct {
 	w    *wire
 	cfg  *tls.Config
+	bad  []*tls.Config // server configurations with certificates the client must refuse (index: pu.cert)
 	wg   sync.WaitGroup
 	mu   sync.Mutex
 	sni  []string // server names seen in ClientHellos
@@ -266,7 +398,14 @@ func (p *tlsPeer) run(items []pitem) {
 			}()
 			return true
 		}
-		for _, it := range items {
+		for i, it := range items {
+			if it.cert != 0 && i == 0 && it.cert < len(p.bad) {
+				p.cfg = p.bad[it.cert]
+				if !start() {
+					return
+				}
+				continue // (the client accepted the certificate: go on, so that the session comes about)
+			}
 			if it.junk {
 				p.w.pushRaw(it.b)
 				continue
@@ -293,6 +432,25 @@ var domains = []string{"a.example", "b.example", "c.example", "d.example", "expl
 type pki struct {
 	server *tls.Config
 	pool   *x509.CertPool
+	// certificates a client must refuse: issued by the trusted CA for another name; self-signed by
+	// an unknown CA for the right names
+	wrongName, unknownCA *tls.Config
+}
+
+func leafConfig(tmpl, parent *x509.Certificate, parentKey *ecdsa.PrivateKey) (*tls.Config, error) {
+	key, err := ecdsa.GenerateKey(elliptic.P256(), rand.Reader)
+	if err != nil {
+		return nil, err
+	}
+	signer := parentKey
+	if parent == nil {
+		parent, signer = tmpl, key
+	}
+	der, err := x509.CreateCertificate(rand.Reader, tmpl, parent, &key.PublicKey, signer)
+	if err != nil {
+		return nil, err
+	}
+	return &tls.Config{Certificates: []tls.Certificate{{Certificate: [][]byte{der}, PrivateKey: key}}, MinVersion: tls.VersionTLS12}, nil
 }
 
 func newPKI(dir string) (*pki, error) {
@@ -332,7 +490,24 @@ func newPKI(dir string) (*pki, error) {
 	os.Setenv("SSL_CERT_DIR", caDir)
 	pool := x509.NewCertPool()
 	pool.AddCert(cert)
+	leaf := func(serial int64, names []string) *x509.Certificate {
+		return &x509.Certificate{
+			SerialNumber: big.NewInt(serial), Subject: pkix.Name{CommonName: "c02 harness leaf"},
+			NotBefore: time.Now().Add(-time.Hour), NotAfter: time.Now().Add(24 * time.Hour),
+			KeyUsage: x509.KeyUsageDigitalSignature | x509.KeyUsageCertSign, ExtKeyUsage: []x509.ExtKeyUsage{x509.ExtKeyUsageServerAuth},
+			BasicConstraintsValid: true, IsCA: true, DNSNames: names,
+		}
+	}
+	wrongName, err := leafConfig(leaf(2, []string{"elsewhere.example"}), cert, key)
+	if err != nil {
+		return nil, err
+	}
+	unknownCA, err := leafConfig(leaf(3, domains), nil, nil)
+	if err != nil {
+		return nil, err
+	}
 	return &pki{
+		wrongName: wrongName, unknownCA: unknownCA,
 		server: &tls.Config{
 			Certificates: []tls.Certificate{{Certificate: [][]byte{der}, PrivateKey: key}},
 			MinVersion:   tls.VersionTLS12,
